@@ -249,6 +249,9 @@ def run(ctx):
         else:
             ctx.violation('C11.W1', f.name, 'pending:non-constant', f.where(e),
                           'set_dyndep_pending with a non-constant argument')
+    vals = [const_value(e['args'][0]) for f, e in calls_to(prog, 'Node::set_dyndep_pending')]
+    ctx.check('C11.W1', 0 in vals and 1 in vals, 'Node::set_dyndep_pending', 'pending:lifecycle-incomplete', 'src/dyndep.cc',
+              'the pending flag is both set (parser) and cleared (loader): %s' % sorted(set(vals), key=str))
     mp = prog.fn('ManifestParser::ParseEdge')
     reject_if(ctx, 'C11.W1', mp, lambda a: strip(a).get('k') == 'call' and
               basename(strip(a).get('name') or '').startswith('operator==') and var_named('dgi')(
